@@ -178,3 +178,110 @@ package xslices
 //@   ispure
 //@   ensures -1 <= r && r < len(s) && (r >= 0 ==> s[r] == v)
 //@   ensures forall t int {s[t]} :: 0 <= t && t < len(s) && (r == -1 || t < r) ==> s[t] != v
+
+// ---- go1.21 delegations: assumed contracts of package slices, proved contracts of the wrappers ----
+
+//@ ext slices.ContainsFunc(s, f) (r)
+//@   requires f != nil
+//@   ensures r ==> (exists t int :: 0 <= t && t < len(s) && f(s[t]))
+//@   ensures !r ==> (forall t int {s[t]} :: 0 <= t && t < len(s) ==> !f(s[t]))
+
+//@ ext slices.Clone(s) (r)
+//@   ensures len(r) == len(s) && (forall k int {r[k]} :: 0 <= k && k < len(s) ==> r[k] == s[k])
+//@   ensures len(s) > 0 ==> fresh(r)
+
+//@ ext slices.Equal(a, b) (r)
+//@   ispure
+//@   ensures r <==> (len(a) == len(b) && (forall t int {a[t]} {b[t]} :: 0 <= t && t < len(a) ==> a[t] == b[t]))
+
+//@ ext slices.EqualFunc(a, b, eq) (r)
+//@   requires eq != nil
+//@   ensures r <==> (len(a) == len(b) && (forall t int {a[t]} {b[t]} :: 0 <= t && t < len(a) ==> eq(a[t], b[t])))
+
+//@ ext slices.IndexFunc(s, f) (r)
+//@   requires f != nil
+//@   ensures -1 <= r && r < len(s) && (r >= 0 ==> f(s[r]))
+//@   ensures forall t int {s[t]} :: 0 <= t && t < len(s) && (r == -1 || t < r) ==> !f(s[t])
+
+//@ ext slices.DeleteFunc(s, del) (r)
+//@   requires del != nil
+//@   modifies elems(s)
+//@   ensures len(r) == len(s) - cnt(del, old(s), len(s)) && 0 <= len(r) && len(r) <= len(s) && arr(r) == arr(s) && off(r) == off(s)
+//@   ensures forall k int {row(s)[k]} :: k < off(s) || k >= off(s) + len(s) ==> row(s)[k] == old(row(s)[k])
+//@   ensures forall t int {r[t]} :: 0 <= t && t < len(r) ==> !del(r[t])
+
+//@ ext slices.Delete(s, i, j) (r)
+//@   panics when i < 0 || j < i || j > len(s)
+//@   modifies elems(s)
+//@   ensures len(r) == len(s) - (j - i) && arr(r) == arr(s) && off(r) == off(s)
+//@   ensures forall k int {row(s)[k]} :: k < off(s) || k >= off(s) + len(s) ==> row(s)[k] == old(row(s)[k])
+//@   ensures forall t int {r[t]} :: (0 <= t && t < i ==> r[t] == old(s[t])) && (i <= t && t < len(r) ==> r[t] == old(s[t + (j - i)]))
+
+//@ ext slices.Insert(s, i, vs) (r)
+//@   panics when i < 0 || i > len(s)
+//@   ensures len(r) == len(s) + len(vs)
+//@   ensures forall t int {r[t]} :: (0 <= t && t < i ==> r[t] == old(s[t])) && (i <= t && t < i + len(vs) ==> r[t] == vs[t - i]) && (i + len(vs) <= t && t < len(r) ==> r[t] == old(s[t - len(vs)]))
+
+//@ func Any
+//@   props C19
+//@   requires f != nil
+//@   ensures result ==> (exists t int :: 0 <= t && t < len(s) && f(s[t]))
+//@   ensures !result ==> (forall t int {s[t]} :: 0 <= t && t < len(s) ==> !f(s[t]))
+
+//@ func Clone
+//@   props C19
+//@   ensures len(result) == len(s) && (forall k int {result[k]} :: 0 <= k && k < len(s) ==> result[k] == s[k])
+//@   ensures len(s) > 0 ==> fresh(result)
+
+//@ func Equal
+//@   props C19
+//@   ensures result <==> (len(a) == len(b) && (forall t int {a[t]} {b[t]} :: 0 <= t && t < len(a) ==> a[t] == b[t]))
+
+//@ func EqualFunc
+//@   props C19
+//@   requires eq != nil
+//@   ensures result <==> (len(a) == len(b) && (forall t int {a[t]} {b[t]} :: 0 <= t && t < len(a) ==> eq(a[t], b[t])))
+
+//@ func IndexFunc
+//@   props C19
+//@   requires f != nil
+//@   ensures -1 <= result && result < len(s) && (result >= 0 ==> f(s[result]))
+//@   ensures forall t int {s[t]} :: 0 <= t && t < len(s) && (result == -1 || t < result) ==> !f(s[t])
+
+//@ func Index
+//@   props C19
+//@   ensures -1 <= result && result < len(s) && (result >= 0 ==> s[result] == x)
+//@   ensures forall t int {s[t]} :: 0 <= t && t < len(s) && (result == -1 || t < result) ==> s[t] != x
+
+//@ func Grow
+//@   props C19
+//@   panics when n < 0
+//@   ensures len(result) == len(s) && cap(result) >= len(s) + n
+//@   ensures forall k int {result[k]} :: 0 <= k && k < len(s) ==> result[k] == s[k]
+
+//@ func FilterInPlace
+//@   props C19
+//@   requires keep != nil
+//@   modifies elems(s)
+//@   ensures len(result) <= len(s) && arr(result) == arr(s) && off(result) == off(s)
+//@   ensures forall t int {result[t]} :: 0 <= t && t < len(result) ==> keep(result[t])
+
+//@ func Filter
+//@   props C19
+//@   requires keep != nil
+//@   ensures len(result) <= len(s)
+//@   ensures forall t int {result[t]} :: 0 <= t && t < len(result) ==> keep(result[t])
+//@   ensures forall t int {s[t]} :: 0 <= t && t < len(s) ==> s[t] == old(s[t])
+
+//@ func Remove
+//@   props C19
+//@   panics when idx < 0 || n < 0 || idx + n > len(s)
+//@   modifies elems(s)
+//@   ensures len(result) == len(s) - n
+//@   ensures forall t int {result[t]} :: (0 <= t && t < idx ==> result[t] == old(s[t])) && (idx <= t && t < len(result) ==> result[t] == old(s[t + n]))
+
+//@ func Insert
+//@   props C19
+//@   panics when idx < 0 || idx > len(s)
+//@   ensures len(result) == len(s) + len(values)
+//@   ensures forall t int {result[t]} :: (0 <= t && t < idx ==> result[t] == old(s[t])) && (idx <= t && t < idx + len(values) ==> result[t] == values[t - idx]) && (idx + len(values) <= t && t < len(result) ==> result[t] == old(s[t - len(values)]))
